@@ -521,9 +521,46 @@ def _replay_e2(res, pid, obj, wd):
 REPLAYERS["e2"] = _replay_e2
 
 
+def range_constructor(res, pid, wd):
+    """all 2^32 arguments of the public AddressRange constructor (2.5 s on 8 threads); the per-count summary of what was
+    accepted determines the accepted set completely and is judged by RangeSummary.tla against ModbusPdu!ValidRange"""
+    os.makedirs(wd, exist_ok=True)
+    tp = os.path.join(wd, "range.ndjson")
+    rc, out = vf.sh([vf.harness_bin("e6_range"), tp], timeout=900)
+    if rc != 0:
+        raise vf.ToolError("e6_range failed: " + out[-2000:])
+    r = vf.tlc_trace("RangeSummary.tla", "RangeSummary.cfg", tp, wd)
+    res.stages.append({"stage": "AddressRange constructor, all 2^32 arguments", "kind": "exhaustive-enumeration + trace-validation",
+                       "arguments": 2 ** 32, "accepted_by_spec": r["accepted"]})
+    res.evaluations += 2 ** 32
+    res.distinct.add("address-range-2^32")
+    if not r["accepted"]:
+        summary = open(tp).read().strip()
+        res.violation(f"AddressRange::try_from over all 2^32 arguments: the set of accepted (start, count) pairs is not ValidRange; summary {summary}",
+                      {"property": pid, "engine": "range-constructor", "summary": json.loads(summary)})
+    # the closed form used by the summary equals ValidRange (checked by TLC on a scaled address space, empty recording)
+    ep = os.path.join(wd, "empty.ndjson")
+    open(ep, "w").close()
+    cfg = os.path.join(wd, "RangeSummary_scaled.cfg")
+    c = dict(SCALED)
+    c["AddrSpace"] = 32
+    vf.write_cfg(cfg, "Spec", c, invariants=["ClosedFormMatchesValidRange"], extra=["CONSTRAINT Furthest", "POSTCONDITION TraceAccepted"])
+    r2 = vf.tlc_trace("RangeSummary.tla", cfg, ep, wd)
+    if not r2["accepted"]:
+        raise vf.ToolError("RangeSummary closed form does not match ValidRange on the scaled address space")
+
+
+def _replay_range(res, pid, obj, wd):
+    range_constructor(res, pid, wd)
+
+
+REPLAYERS["range-constructor"] = _replay_range
+
+
 @check("C03")
 def c03(res, tier, rng, wd):
     design_pdu(res, "C03", tier == "thorough")
+    range_constructor(res, "C03", wd)
     scs = e2.gen_c03(rng, tier == "thorough")
     run_e2(res, "C03", scs, wd, "c03")
     res.assumptions = E2_ASSUME + ["AddressRange is built with its constructor (struct literals bypass validation: out of the property's scope)"]
